@@ -18,7 +18,7 @@ import (
 const c12Rule = "case = persist or merge workload (small and 128-document-block families; built / memory-loaded / file-loaded inputs; merge buffer size from {1,2,7,64,4096,0}); " +
 	"inside each case EVERY byte offset k in [0,len(file)) is injected as 'writer accepts exactly k bytes then fails forever' and as 'the one Write call crossing byte k fails, later calls succeed' (Segment.WriteTo and Merger.WriteTo must return a non-nil error) and EVERY k in [0,len] as " +
 	"'close channel closed when the k-th byte reaches the writer' (result must be ErrClosed, or nil with the complete fault-free file and the right byte count); files > 8 KiB (block family: > 2 KiB): exhaustive within 64 bytes of " +
-	"every section/flush boundary, every 29th offset elsewhere; non-trivial = file spans >=2 buffer flushes and the fault lands strictly inside; distinct = hash of the workload text"
+	"every section/flush boundary, every 29th offset elsewhere (files > 60 KB: ~2000 evenly spread offsets); non-trivial = file spans >=2 buffer flushes and the fault lands strictly inside; distinct = hash of the workload text"
 
 // offsetsToTry returns the fault offsets for a file: all of them for small
 // files, boundary neighbourhoods + a stride for large ones.
@@ -58,7 +58,11 @@ func offsetsToTry(good []byte, bufSize int, upTo int) ([]int, bool) {
 			near(b)
 		}
 	}
-	for k := 0; k < upTo; k += 29 {
+	stride := 29
+	if upTo > 60000 {
+		stride = upTo/2000 | 1 // multi-megabyte files: ~2000 evenly spread offsets
+	}
+	for k := 0; k < upTo; k += stride {
 		set[k] = true
 	}
 	rv := make([]int, 0, len(set))
@@ -432,4 +436,114 @@ func TestC12WideB(t *testing.T) {
 	st := NewStats("C12WideB", c12WideRule)
 	defer st.Flush()
 	rapid.Check(t, c12WideProp(st))
+}
+
+// ---- > 16 MiB files: faults at power-of-two offsets ----
+
+const c12GiantRule = "case = a segment with a data section of 17..34 MiB (persisted built and loaded) and the single-input merge of it; write faults - 'fails forever from byte k' and 'only the Write call crossing byte k fails' - at k in {0, 12345, " +
+	"2^20-1, 2^20, 2^22, 2^23+7, 2^24-1, 2^24, 2^24+1, 2^25-1, 2^25, 2^25+1, len-45, len-1} (those below the file length): both must yield a non-nil error; " +
+	"non-trivial = a fault beyond 2^24; distinct = hash of the workload text + offset"
+
+func c12GiantProp(st *CaseStats) func(t *rapid.T) {
+	return func(t *rapid.T) {
+		ctx := &Ctx{}
+		defer ctx.Close()
+		sc := GenScenario(t)
+		c, err := GenLeaf(t, ctx, sc, CaseCfg{Family: FamGiant}, "g")
+		if err != nil {
+			t.Fatalf("%s: %v", sc, err)
+		}
+		good, err := Persist(c.Seg)
+		if err != nil {
+			t.Fatalf("%s: %v", sc, err)
+		}
+		loaded, err := LoadMem(good)
+		if err != nil {
+			t.Fatalf("%s: %v", sc, err)
+		}
+		desc := fmt.Sprintf("%s %s (%d bytes)", sc, c.Desc, len(good))
+		var ks []int
+		for _, k := range []int{0, 12345, 1<<20 - 1, 1 << 20, 1 << 22, 1<<23 + 7, 1<<24 - 1, 1 << 24, 1<<24 + 1, 1<<25 - 1, 1 << 25, 1<<25 + 1, len(good) - 45, len(good) - 1} {
+			if k >= 0 && k < len(good) {
+				ks = append(ks, k)
+			}
+		}
+		inner := 0
+		for _, src := range []struct {
+			name string
+			seg  segment.Segment
+		}{{"built", c.Seg}, {"loaded", loaded}} {
+			for _, k := range ks {
+				for _, fw := range []interface {
+					Write([]byte) (int, error)
+				}{&failOnce{k: k}, &countingFailAfter{k: k}} {
+					var n int64
+					err := safely("Segment.WriteTo(failing writer)", func() error {
+						var e error
+						n, e = src.seg.WriteTo(fw, nil)
+						return e
+					})
+					inner++
+					if err == nil {
+						t.Fatalf("%s:\n  Segment.WriteTo of the %s segment reported success (n=%d) although the writer (%T) failed at byte %d of %d", desc, src.name, n, fw, k, len(good))
+					}
+					if isPanic(err) {
+						t.Fatalf("%s:\n  Segment.WriteTo, writer failing at byte %d: %v", desc, k, err)
+					}
+				}
+			}
+		}
+		// the merge of the loaded segment (a file of about the same size)
+		cw := &countingFailAfter{k: 1 << 40}
+		if _, err := ice.Merge([]segment.Segment{loaded}, []*roaring.Bitmap{nil}, 0).WriteTo(cw, nil); err != nil {
+			t.Fatalf("%s: fault-free merge: %v", desc, err)
+		}
+		mergedLen := cw.n
+		for _, k := range []int{0, 1<<20 - 1, 1 << 22, 1<<24 - 1, 1 << 24, 1<<24 + 1, mergedLen - 45, mergedLen - 1} {
+			if k < 0 || k >= mergedLen {
+				continue
+			}
+			for _, fw := range []interface {
+				Write([]byte) (int, error)
+			}{&failOnce{k: k}, &countingFailAfter{k: k}} {
+				var n int64
+				err := safely("Merger.WriteTo(failing writer)", func() error {
+					var e error
+					n, e = ice.Merge([]segment.Segment{loaded}, []*roaring.Bitmap{nil}, 0).WriteTo(fw, nil)
+					return e
+				})
+				inner++
+				if err == nil {
+					t.Fatalf("%s:\n  Merger.WriteTo reported success (n=%d) although the writer (%T) failed at byte %d", desc, n, fw, k)
+				}
+				if isPanic(err) {
+					t.Fatalf("%s:\n  Merger.WriteTo, writer failing at byte %d: %v", desc, k, err)
+				}
+			}
+		}
+		st.AddInner(inner)
+		st.Record(desc, len(good) > 1<<24, "giant")
+	}
+}
+
+// countingFailAfter is failAfter without keeping the bytes (multi-megabyte files).
+type countingFailAfter struct{ k, n int }
+
+func (w *countingFailAfter) Write(p []byte) (int, error) {
+	room := w.k - w.n
+	if room <= 0 {
+		return 0, errInjected
+	}
+	if len(p) <= room {
+		w.n += len(p)
+		return len(p), nil
+	}
+	w.n += room
+	return room, errInjected
+}
+
+func TestC12Giant(t *testing.T) {
+	st := NewStats("C12Giant", c12GiantRule)
+	defer st.Flush()
+	rapid.Check(t, c12GiantProp(st))
 }
